@@ -59,6 +59,7 @@ type ClSpec struct {
 	Preload    [][]string           `json:"preload,omitempty"`   // ghost commands executed at the key's owner before the client exists
 	// Cancel: batches are abandoned (cancelled at a seeded step) while their commands are still queued behind a
 	// bounded socket send buffer; the caller goes on building new commands at once (C33)
+	MapOrder bool `json:"map_order,omitempty"` // the plan has helper calls that send a batch in Go map order
 	Cancel  bool `json:"cancel,omitempty"`
 	SendBuf int  `json:"send_buf,omitempty"`
 }
@@ -124,7 +125,8 @@ func genCluster(seed uint64, tier, variant string) any {
 	if mode == "" {
 		mode = pick(r, "stable", "stable", "change", "change", "faults")
 	}
-	cl.Stable = mode == "stable" || mode == "replicas" || mode == "helpers" || mode == "cancel" || mode == "dedicated"
+	cl.Stable = mode == "stable" || mode == "replicas" || mode == "helpers" || mode == "helpers2" || mode == "cancel" || mode == "dedicated"
+	cl.MapOrder = mode == "helpers2"
 	cl.FaultFree = mode != "faults"
 	cl.Cancel = mode == "cancel"
 	// topology: 2-4 shards, 0-2 replicas each
@@ -295,6 +297,20 @@ func genCluster(seed uint64, tier, variant string) any {
 			static = append(static, k)
 		}
 	}
+	if mode == "helpers2" {
+		for i := 0; i < len(ks); i++ {
+			for j := 0; j < 3; j++ {
+				k := keyOf(i, "j"+strconv.Itoa(j))
+				if r.IntN(4) != 0 {
+					cl.Preload = append(cl.Preload, []string{"JSON.SET", k, "$", fmt.Sprintf(`{"k":%q,"n":%d}`, k, j)})
+				}
+			}
+			for j := 0; j < 2; j++ {
+				k := keyOf(i, "nx"+strconv.Itoa(j))
+				cl.Preload = append(cl.Preload, []string{"SET", k, "old:" + k})
+			}
+		}
+	}
 	nt := 2 + r.IntN(5)
 	for ti := 0; ti < nt; ti++ {
 		var calls []CallSpec
@@ -310,8 +326,42 @@ func genCluster(seed uint64, tier, variant string) any {
 			}
 			var c CallSpec
 			x := r.IntN(100)
-			if mode == "helpers" {
+			if mode == "helpers" || mode == "helpers2" {
 				x = 80 + r.IntN(20)
+			}
+			if mode == "helpers2" && r.IntN(3) != 0 {
+				// helpers whose batch is built by ranging over a Go map, and the JSON helpers
+				n := 1 + r.IntN(6)
+				kind := pick(r, "mset", "mset", "msetnx", "jmset", "jmget", "jmgetcache")
+				c = CallSpec{Kind: kind, S: uid(0), TTLMs: 60_000}
+				var kv []string
+				switch kind {
+				case "jmget", "jmgetcache":
+					for k := 0; k < n; k++ {
+						key := keyOf(r.IntN(len(ks)), "j"+strconv.Itoa(r.IntN(3)))
+						kv = append(kv, key)
+					}
+				default:
+					seen := map[string]bool{}
+					for k := 0; k < n; k++ {
+						key := keyOf(r.IntN(len(ks)), "h."+uid(k))
+						if kind == "msetnx" && r.IntN(3) == 0 {
+							key = keyOf(r.IntN(len(ks)), "nx"+strconv.Itoa(r.IntN(2))) // preloaded: NX must refuse it
+						}
+						if seen[key] {
+							continue
+						}
+						seen[key] = true
+						val := "v:" + key + ":" + uid(k)
+						if kind == "jmset" {
+							val = fmt.Sprintf(`{"k":%q,"u":%q}`, key, uid(k))
+						}
+						kv = append(kv, key, val)
+					}
+				}
+				c.Cmds = []CmdSpec{{Argv: kv}}
+				calls = append(calls, c)
+				continue
 			}
 			if mode == "cancel" {
 				x = pick(r, 10, 30, 45, 50, 55) // single commands and batches only
@@ -859,6 +909,10 @@ func execCluster(t *testing.T, plan any, out *Outcome) {
 			muxRegReset(16)
 			richIdent.Store(true)
 			e.sim.SortLockers = true
+			if cp.Cl.MapOrder {
+				e.sim.Cfg.NoPayloadHash = true
+				identNoCmd.Store(true)
+			}
 			if cp.Cl.SendBuf > 0 {
 				sb := cp.Cl.SendBuf
 				e.sim.OnAccept = func(s *sched.Sim, l *sched.Link) { l.C.SetSendBuffer(sb) }
@@ -1004,6 +1058,24 @@ func clusterHelperCall(e *env, cl Client, cs CallSpec, ctx context.Context, rec 
 		conve(MDel(cl, ctx, cs.Cmds[0].Argv))
 	case "mset1":
 		conve(MSet(cl, ctx, map[string]string{cs.Cmds[0].Argv[0]: cs.Cmds[0].Argv[1]}))
+	case "mset", "msetnx", "jmset":
+		kvs := map[string]string{}
+		a := cs.Cmds[0].Argv
+		for i := 0; i+1 < len(a); i += 2 {
+			kvs[a[i]] = a[i+1]
+		}
+		switch cs.Kind {
+		case "mset":
+			conve(MSet(cl, ctx, kvs))
+		case "msetnx":
+			conve(MSetNX(cl, ctx, kvs))
+		default:
+			conve(JsonMSet(cl, ctx, kvs, "$"))
+		}
+	case "jmget":
+		conv(JsonMGet(cl, ctx, cs.Cmds[0].Argv, "$"))
+	case "jmgetcache":
+		conv(JsonMGetCache(cl, ctx, time.Duration(cs.TTLMs)*time.Millisecond, cs.Cmds[0].Argv, "$"))
 	default:
 		return nil
 	}
@@ -1705,7 +1777,8 @@ func (ce *clusterEnv) judgeHelper(task int, spec CallSpec, rec *sched.CallRec, r
 	keys := spec.Cmds[0].Argv
 	uniq := map[string]bool{}
 	switch spec.Kind {
-	case "mget", "mgetcache":
+	case "mget", "mgetcache", "jmget", "jmgetcache":
+		isJSON := strings.HasPrefix(spec.Kind, "j")
 		for _, k := range keys {
 			uniq[k] = true
 		}
@@ -1730,7 +1803,11 @@ func (ce *clusterEnv) judgeHelper(task int, spec CallSpec, rec *sched.CallRec, r
 			// static keys are never modified: the value is exactly the preloaded one (or nil when not preloaded)
 			want := resp.Nil()
 			if o := ce.cluster.Owner(fakeredis.KeySlot(k)); o != nil {
-				if sv, ok := o.DBs.Lookup(k); ok {
+				if isJSON {
+					if jv := ce.sim.W.Ghost(o.Addr, "JSON.GET", k, "$"); jv.T == '$' && !jv.Null {
+						want = resp.Bulk(jv.S)
+					}
+				} else if sv, ok := o.DBs.Lookup(k); ok {
 					want = resp.Bulk(sv)
 				}
 			}
@@ -1762,6 +1839,55 @@ func (ce *clusterEnv) judgeHelper(task int, spec CallSpec, rec *sched.CallRec, r
 				out.violate("C31", "helper-wrong-value", "task %d call %d %s: key %q -> %s, the model stores %s", task, rec.Index, spec.Kind, k, truncStr(v.V.String(), 120), want.String())
 			} else {
 				out.judged("helper-entry")
+			}
+		}
+	case "mset", "msetnx", "jmset":
+		kv := map[string]string{}
+		for i := 0; i+1 < len(keys); i += 2 {
+			kv[keys[i]] = keys[i+1]
+		}
+		if len(res.KErr) != len(kv) {
+			out.violate("C31", "helper-key-set", "task %d call %d %s: result has %d keys, input has %d", task, rec.Index, spec.Kind, len(res.KErr), len(kv))
+			return
+		}
+		for k, val := range kv {
+			es, ok := res.KErr[k]
+			if !ok {
+				out.violate("C31", "helper-key-set", "task %d call %d %s: key %q missing from the result", task, rec.Index, spec.Kind, k)
+				return
+			}
+			if !(strict && ce.cp.Cl.Stable) {
+				out.notJudged("helper-effect-under-topology-change")
+				continue
+			}
+			o := ce.cluster.Owner(fakeredis.KeySlot(k))
+			if o == nil {
+				continue
+			}
+			preexisting := strings.Contains(k, "}nx")
+			switch {
+			case spec.Kind == "msetnx" && preexisting:
+				// SET NX on an existing key: that key's reply is nil, its old value stays
+				if sv, _ := o.DBs.Lookup(k); es != "nil" || sv != "old:"+k {
+					out.violate("C31", "helper-wrong-entry", "task %d call %d MSetNX: existing key %q -> %q (want the nil reply of its own SET NX), model stores %q", task, rec.Index, k, es, sv)
+				} else {
+					out.judged("helper-entry")
+				}
+			case es != "":
+				out.violate("C31", "helper-error", "task %d call %d %s: key %q -> error %q in a stable, fault-free plan", task, rec.Index, spec.Kind, k, es)
+			case spec.Kind == "jmset":
+				jv := ce.sim.W.Ghost(o.Addr, "JSON.GET", k, "$.u")
+				if !strings.Contains(jv.S, val[strings.Index(val, `"u":`)+4:len(val)-1]) {
+					out.violate("C31", "helper-effect", "task %d call %d JsonMSet reported success for %q but the model stores %s (sent %s)", task, rec.Index, k, truncStr(jv.String(), 120), val)
+				} else {
+					out.judged("helper-entry")
+				}
+			default:
+				if sv, has := o.DBs.Lookup(k); !has || sv != val {
+					out.violate("C31", "helper-effect", "task %d call %d %s reported success for %q but the model stores %q (present=%v), sent %q", task, rec.Index, spec.Kind, k, sv, has, val)
+				} else {
+					out.judged("helper-entry")
+				}
 			}
 		}
 	case "mdel", "mset1":
